@@ -40,8 +40,14 @@ CLAIMED = {
          "a along x, b in the xy plane) is decided for unitcell.py, the Trajectory property pair and the LAMMPS box reader/writer; lengths and angles "
          "travel together at every construction/assignment site of the package; degrees are converted before cos/sin and back after arccos. "
          "Numerical agreement is not decided.", _NOTE, "DESIGN.md §4 C17"),
+ "C01": ("table agreement (savers / registry), units-of-length flow check with a format-specification oracle, fixed-width layout engine (format strings -> column spans vs reader slices), permutation/token tables, loop-index dependence",
+         "Structural necessary conditions of a correct round trip are decided for every writable format: dispatch tables agree; every length crosses the "
+         "file boundary through exactly one conversion in the right direction and the class unit equals the unit the format specifies (catches errors "
+         "that cancel in save-then-load); fixed-width writers and readers agree column by column (PDB ATOM/CRYST1, mdcrd, rst7, gro); token orders, the GRO "
+         "box permutation, DCD/DTR cell fields and NetCDF/HDF5 names agree; restart writers index every per-frame field by the loop variable. "
+         "Numerical equality within precision is not decided.", _NOTE, "DESIGN.md §4 C01"),
 }
 _PENDING = "check not built yet in this round (design in DESIGN.md §4); will be claimed when its rules run clean"
-NA = {k: _PENDING for k in ["C01","C05","C06","C07","C08","C09","C10","C11","C13","C14","C15"]}
+NA = {k: _PENDING for k in ["C05","C06","C07","C08","C09","C10","C11","C13","C14","C15"]}
 NA["C16"] = ("every clause is numerical equality of computed arrays with closed-form expressions; no structural "
              "necessary condition covers more than one of the fifteen functions (DESIGN.md §5)")
